@@ -148,10 +148,17 @@ int cp_etrs_ver(size_t thres, const bn_t *td, const bn_t *y, size_t max,
 	ec_t w[2];
 
 	int d = max + size - thres;
-	bn_t *v = RLC_ALLOCA(bn_t, d);
-	bn_t *_v = RLC_ALLOCA(bn_t, d);
-	bn_t *_y = RLC_ALLOCA(bn_t, d);
-	ec_t *_t = RLC_ALLOCA(ec_t, d);
+
+	/* No more signers than ring members can be required. */
+	if (thres > size) {
+		return 0;
+	}
+
+	/* One more slot for the point (0, pp). */
+	bn_t *v = RLC_ALLOCA(bn_t, d + 1);
+	bn_t *_v = RLC_ALLOCA(bn_t, d + 1);
+	bn_t *_y = RLC_ALLOCA(bn_t, d + 1);
+	ec_t *_t = RLC_ALLOCA(ec_t, d + 1);
 
 	bn_null(l);
 	bn_null(n);
@@ -168,7 +175,7 @@ int cp_etrs_ver(size_t thres, const bn_t *td, const bn_t *y, size_t max,
 		if (_y == NULL || _t == NULL || v == NULL) {
 			RLC_THROW(ERR_NO_MEMORY);
 		}
-		for (i = 0; i < d; i++) {
+		for (i = 0; i <= d; i++) {
 			bn_null(v[i]);
 			bn_null(_v[i]);
 			bn_new(v[i]);
@@ -222,6 +229,37 @@ int cp_etrs_ver(size_t thres, const bn_t *td, const bn_t *y, size_t max,
 		ec_mul_sim_lot(w[0], _t, v, d);
 		flag &= ec_cmp(w[0], pp) != RLC_EQ;
 
+		/* The remaining thres points lie on the polynomial through (0, pp) and
+		 * the first d points: this is what ties the ring to pp. */
+		bn_zero(_y[d]);
+		ec_copy(_t[d], pp);
+		for (int k = size - thres; k < size; k++) {
+			/* Lagrange coefficients of the d + 1 nodes at s[k]->y. */
+			for (i = 0; i <= d; i++) {
+				for (int j = 0; j <= d; j++) {
+					bn_set_dig(_v[j], 1);
+					if (j != i) {
+						bn_sub(_v[j], _y[j], _y[i]);
+						bn_mod(_v[j], _v[j], n);
+					}
+				}
+				bn_mod_inv_sim(_v, _v, n, d + 1);
+				bn_set_dig(v[i], 1);
+				for (int j = 0; j <= d; j++) {
+					if (j != i) {
+						bn_sub(u, _y[j], s[k]->y);
+						bn_mod(u, u, n);
+						bn_mul(u, u, _v[j]);
+						bn_mod(u, u, n);
+						bn_mul(v[i], v[i], u);
+						bn_mod(v[i], v[i], n);
+					}
+				}
+			}
+			ec_mul_sim_lot(w[0], _t, v, d + 1);
+			flag &= ec_cmp(w[0], s[k]->h) == RLC_EQ;
+		}
+
 		for (int i = 0; i < size; i++) {
 			ec_copy(w[0], s[i]->h);
 			ec_copy(w[1], s[i]->pk);
@@ -238,7 +276,7 @@ int cp_etrs_ver(size_t thres, const bn_t *td, const bn_t *y, size_t max,
 		bn_free(u);
 		ec_free(w[0]);
 		ec_free(w[1]);
-		for (int i = 0; i < d; i++) {
+		for (int i = 0; i <= d; i++) {
 			bn_free(v[i]);
 			bn_free(_v[i]);
 			bn_free(_y[i]);
